@@ -1,6 +1,7 @@
 """C19 - the command line reports success and failure through its exit status."""
 import os
 import random
+import re
 import subprocess
 import tempfile
 import collections
@@ -56,6 +57,11 @@ def getopts(args):
         return False, set(), []
     return True, set(seen), free
 TIMEOUTS = [None, "0", "1", "3", "9999", "4294967295", "4294967296", "-1", "abc", "", "+5", "007", "1 ", "99999999999999999999"]
+
+
+def inv_flags(lossy):
+    ok, flags, free = getopts(lossy)
+    return flags if ok else set()
 
 
 def check(report, tier, seed):
@@ -157,6 +163,7 @@ def check(report, tier, seed):
                 report.broken.append({"what": "the check's own reading of the arguments disagrees with the model's parse_argv",
                                       "detail": {"args": [a.replace(d, "<tmp>") for a in args], "argv-model": model.get("a%d" % i), "digested": model2.get("b%d" % i)}})
                 break
+        observed = {}
         for i, (args, inv, hk, lossy) in enumerate(cases):
             want = model.get("a%d" % i, ["?"])[0].split()
             try:
@@ -169,6 +176,7 @@ def check(report, tier, seed):
                 report.violation("cli-hang", "no termination within 60 s: %r" % args, {"args": args})
                 continue
             out, err = r.stdout.decode("utf-8", "replace"), r.stderr.decode("utf-8", "replace")
+            observed[i] = (r.returncode, r.stdout)
             final = any(m in out for m in ("halted in state", "timed out after", "error caused in state"))
             got = ("usage" if "Usage:" in out else "version" if "HCLRS version" in out else "syntaxok" if "syntax OK" in out
                    else "final" if final else "message" if err.strip() else "nothing")
@@ -195,11 +203,64 @@ def check(report, tier, seed):
                     report.violation("cli-wrong-run", "halting program did not report 3 cycles", rep)
                 if hk == "errstat" and t >= 2 and "Error code: 4" not in out:
                     report.violation("cli-wrong-run", "error status not reported", rep)
+        # END TO END: the whole command composed in the model (Tool.tool_main_as: options, file reading, preamble, lexer,
+        # parser, builder, loader, simulator, final dump) on the same argument vector and the same file contents:
+        # exit status and standard output, byte for byte (lines as a multiset under -d / --trace-assignments, whose
+        # line order follows the hash order; no output comparison when the simulation aborts: the model keeps no partial output)
+        table = {}
+        for nm in sorted(os.listdir(d)):
+            pth = os.path.join(d, nm)
+            try:
+                table[pth] = open(pth, "rb").read().decode("utf-8")       # a file that is not UTF-8 cannot be read: absent
+            except UnicodeDecodeError:
+                pass
+        entries = " ".join("%s:%s" % (lib.hexs(pth), content.encode().hex() or "") for pth, content in table.items())
+        tool_lines, chosen = [], []
+        want_n = 60 if tier == "quick" else 1500
+        quota = {True: want_n - want_n // 3, False: want_n // 3}          # two thirds successful invocations, one third failing ones
+        for i, (args, inv, hk, lossy) in enumerate(cases):
+            if i not in observed or quota[observed[i][0] == 0] <= 0:
+                continue
+            tmo = inv["free"][2] if len(inv["free"]) > 2 else None
+            if tmo is not None and re.fullmatch(r"\+?[0-9]+", tmo) and int(tmo) > 100000:
+                continue                    # the extracted model spends fuel in unary: huge budgets are checked by C06 instead
+            if any("\ufffd" in a for a in lossy):
+                continue
+            if hk == "forever" and budget(inv["free"]) > 200:
+                continue                    # thousands of cycles of output: nothing new, and slow in the extracted model
+            chosen.append(i)
+            quota[observed[i][0] == 0] -= 1
+            tool_lines.append("m%d mtool %s %d %s %s" % (i, lib.hexs(cli), len(table), entries, " ".join(lib.hexs(x) for x in lossy)))
+        tool = lib.run_cases(driver, tool_lines)
+        for i in chosen:
+            args, inv, hk, lossy = cases[i]
+            blk = tool.get("m%d" % i, ["MISSING"])
+            code, out = observed[i]
+            rep = {"args": [a.replace(d, "<tmp>") for a in args], "exit": code, "stdout": out.decode("utf-8", "replace")[-600:], "model": [l[:200] for l in blk]}
+            if len(blk) != 2 or not blk[0].startswith("exit ") or not blk[1].startswith("stdout"):
+                report.broken.append({"what": "the composed model tool gave no answer", "detail": rep})
+                break
+            try:
+                mcode, mout = int(blk[0][5:]), bytes.fromhex(blk[1][7:].replace("-", ""))
+            except ValueError:
+                report.broken.append({"what": "unreadable answer of the composed model tool", "detail": dict(rep, raw=[l[:300] for l in blk])})
+                break
+            rep["model_stdout"] = mout.decode("utf-8", "replace")[-600:]
+            res["tool:%d" % mcode] += 1
+            if mcode != code:
+                report.violation("tool-exit-status", "exit status %d, the composed model says %d for %r" % (code, mcode, rep["args"]), rep)
+                continue
+            if code != 0 and inv["sim"] == "A":
+                continue                    # aborted simulation: the output printed before the abort is not modelled
+            unordered = any(f in inv_flags(lossy) for f in ("debug", "trace-assignments"))
+            a_, b_ = (sorted(out.split(b"\n")), sorted(mout.split(b"\n"))) if unordered else (out, mout)
+            if a_ != b_:
+                report.violation("tool-stdout-differs", "standard output differs from the composed model's for %r" % rep["args"], rep)
     report.coverage["evaluations"] = len(cases)
     report.coverage["distinct_nontrivial"] = len(set(tuple(a) for a, _, _, _ in cases))
     report.coverage["rule"] = ("argument vectors: random subsets of the ten options in short, long and combined (-dq) spellings, unknown, doubled, abbreviated and valued ones, a lone -, the empty string, one-letter long names, arguments that are not valid UTF-8, the -- terminator, around 0-4 positionals; standard input empty, lines of text, lines that are not UTF-8 (read only by the -i prompt); HCL file valid (halting, running "
                                "forever, error status, aborting with division by zero), rejected or missing; image valid, missing, wrong extension, unloadable, "
                                "not UTF-8; timeouts absent 0 1 3 9999 2^32-1 2^32 -1 abc '' +5 007 '1 ' 10^20; the real binary's exit status and outcome class "
-                               "(usage / version / syntax OK / final state / message) against Cli.main_model, and the printed cycle counts against the timeout")
+                               "(usage / version / syntax OK / final state / message) against Cli.main_model, and the printed cycle counts against the timeout; on a sample, exit status and standard output byte for byte against the whole command composed in the model (Tool.tool_main_as) given the same files")
     report.coverage["distribution"] = dict(res)
     report.coverage["samples"] = [[a.replace(lib.CACHE, "<cache>") for a in cases[0][0]]]
